@@ -87,6 +87,23 @@ class Sim:
             self.change_points = []
         self.next_cp = self.change_points[0] if self.change_points else 1 << 62
         self._import_lock_obj = None
+        # publication bias: process-wide registries whose growth means "something has just become visible to other threads"
+        # (a module in sys.modules, a dialect class in the registry, a generator dispatch table, a lazily bound package attribute)
+        self.p_pub = cfg.get("p_pub", 0.0) if self.mode in ("random", "cold") else 0.0
+        self.watch = []
+        if self.p_pub:
+            self.watch.append(sys.modules)
+            for mod, attr in (("sqlglot.dialects.dialect", "_Dialect"), ("sqlglot.generator", "_DISPATCH_CACHE"), ("sqlglot.optimizer", None), ("sqlglot.dialects", None)):
+                m = sys.modules.get(mod)
+                if m is None:
+                    continue
+                o = m.__dict__ if attr is None else getattr(m, attr, None)
+                if attr == "_Dialect" and o is not None:
+                    o = getattr(o, "_classes", None)
+                if isinstance(o, dict):
+                    self.watch.append(o)
+        self.pub_sig = sum(map(len, self.watch))
+        self.probes["publication_switches"] = 0
 
     # ------------------------------------------------------------------ helpers
     def _gap(self):
@@ -270,6 +287,19 @@ class Sim:
             want = self.step >= self.next_switch
             if cold and not want and self.p_cold and self.rng.random() < self.p_cold:
                 want = True
+            if self.p_pub:
+                sig = sum(map(len, self.watch))
+                if sig != self.pub_sig:
+                    self.pub_sig = sig
+                    if not want and self.rng.random() < self.p_pub and not _imp.lock_held():
+                        # the previous step published something: hand over right now and let the others run for a long while
+                        r = self.runnable()
+                        others = [t for t in r if t is not cur]
+                        if others:
+                            self.probes["publication_switches"] += 1
+                            self.next_switch = self.step + 1 + 4 * self.mean_gap + int(self.rng.expovariate(1.0 / (4 * self.mean_gap)))
+                            self._switch_to(cur, others[self.rng.randrange(len(others))], frame, "event")
+                            return self.trace
             if want and not _imp.lock_held():
                 if self.step >= self.next_switch:
                     self.next_switch = self._gap()
@@ -347,6 +377,60 @@ def _shared_schema(name):
     return s
 
 
+MICRO_KINDS = ["format_time", "json_path", "normalize_identifier", "to_table", "data_type", "tokenize", "dialect_settings", "column_names"]
+
+
+def _micro(what, d, arg):
+    """Small public entry points: a few dozen lines each, so that under fine-grained scheduling most pre-emptions land in or next
+    to whatever memo / scratch state they keep."""
+    from sqlglot import exp
+    from sqlglot.dialects.dialect import Dialect
+
+    if what == "format_time":
+        r = Dialect.get_or_raise(d).format_time(exp.Literal.string(arg))
+        return r.sql() if r is not None else None
+    if what == "json_path":
+        r = Dialect.get_or_raise(d).to_json_path(exp.Literal.string(arg))
+        return r.sql(dialect=d) if r is not None else None
+    if what == "normalize_identifier":
+        from sqlglot.optimizer.normalize_identifiers import normalize_identifiers
+
+        return normalize_identifiers(exp.to_identifier(arg), dialect=d).sql(dialect=d)
+    if what == "to_table":
+        return exp.to_table(arg, dialect=d).sql(dialect=d)
+    if what == "data_type":
+        return exp.DataType.build(arg, dialect=d).sql(dialect=d)
+    if what == "tokenize":
+        return [[t.token_type.name, t.text] for t in Dialect.get_or_raise(d).tokenize(arg)]
+    if what == "dialect_settings":
+        dl = Dialect.get_or_raise("%s, normalization_strategy=%s" % (d or "duckdb", arg))
+        return [type(dl).__name__, dl.normalization_strategy.name]
+    if what == "column_names":
+        sch = _shared_schema("xyz")
+        return [sch.column_names(arg, dialect=d), str(sch.get_column_type(arg, "a", dialect=d))]
+    raise ValueError(what)
+
+
+def _micro_arg(what, i):
+    if what == "format_time":
+        return ["%Y-%m-%d", "%H:%M:%S", "%Y", "%d/%m/%y %H"][i % 4] if i < 4 else "%Y-%m-%d k" + str(i)
+    if what == "json_path":
+        return ["$.a.b", "$.a[0]", "$.x"][i % 3] if i < 3 else "$.k%d.v[%d]" % (i, i % 5)
+    if what == "normalize_identifier":
+        return ["Foo", "bar", "BAZ"][i % 3] if i < 3 else "Id%d" % i
+    if what == "to_table":
+        return ["a.b.c", "Db.Tbl"][i % 2] if i < 2 else "c%d.d.T%d" % (i % 7, i)
+    if what == "data_type":
+        return ["DECIMAL(10, 2)", "ARRAY<INT>", "VARCHAR(20)"][i % 3] if i < 3 else "DECIMAL(%d, %d)" % (10 + i % 20, i % 7)
+    if what == "tokenize":
+        return ["SELECT a, 'x' FROM t", "a + b"][i % 2] if i < 2 else "SELECT c%d, 'v%d' FROM t%d" % (i, i, i)
+    if what == "dialect_settings":
+        return ["lowercase", "uppercase", "case_sensitive", "case_insensitive"][i % 4]
+    if what == "column_names":
+        return ["x", "y", "z", "w", "mixed"][i % 5]
+    raise ValueError(what)
+
+
 def run_call(call):
     """Canonical output of one call. Standard ops are shared with histsim; the rest are the lazy-loading entry points."""
     from sim.histsim import child as hchild
@@ -385,6 +469,17 @@ def run_call(call):
             if call["name"] == "optimize":
                 return ["ok", fn(sqlglot.parse_one(call["sql"], read=call.get("read")), schema=hchild.SCHEMAS["xyz"], dialect=call.get("read")).sql(call.get("read"))]
             return ["ok", fn.__name__]
+        if op == "micro":
+            return ["ok", _micro(call["what"], call.get("dialect"), _micro_arg(call["what"], call["i"]))]
+        if op == "bulk":
+            # a long-running process in one call: a stream of DISTINCT inputs through one small entry point (fills bounded memos
+            # up to and past their capacity while other threads keep asking for a few popular values)
+            acc = []
+            for i in range(call["start"], call["start"] + call["n"]):
+                acc.append(_micro(call["what"], call.get("dialect"), _micro_arg(call["what"], i)))
+            from sim.core import common as _c
+
+            return ["ok", [len(acc), _c.short_hash(acc)]]
         if op == "classes":
             from sqlglot.dialects.dialect import Dialect
 
